@@ -631,6 +631,14 @@ class EvalMixin:
             raise Unsupported("symbolic range loop (use a while loop contract)")
         if kind in ("dictitems", "dictvalues", "dictkeys"):
             return self.dict_iter_plan(st, it[1], kind)
+        if kind == "reversed":
+            inner = self.iter_plan(st, it[1], node)
+            if inner[0] == "static":
+                return ("static", list(reversed(inner[1])))
+            _, seq, start, elemfn = inner
+            n = self.list_len(st, seq.t)
+            # the k-th element of reversed(seq) is seq[len - 1 - k] (len as of loop entry)
+            return ("heap", seq, start, lambda s, kk: elemfn(s, n - 1 - kk))
         raise Unsupported(f"iteration kind {kind}")
 
     def dict_iter_plan(self, st, d, kind):
